@@ -56,8 +56,13 @@ func shapeOf(fc *frameCase) (string, int) {
 	return name, n
 }
 
+// fields of the object buildShape built last (what a decoded copy must show through its accessors: the encoding alone
+// cannot tell, since a field the encoder derives instead of writing round-trips through the bytes unchanged)
+var lastBuilt func(obj wt.AppenderTo) string
+
 // build an object of the shape, its encoding and a decoder for fresh objects
 func buildShape(name string, n int, salt int) (enc []byte, decode func(src []byte) ([]byte, wt.AppenderTo, error)) {
+	lastBuilt = nil
 	fv := func(i int) wt.Value { return wt.Value(math.Float64frombits(advFloats[(i+salt)%len(advFloats)])) }
 	tv := func(i int) wt.Timestamp { return wt.Timestamp(advTimes[(i+salt)%len(advTimes)]) }
 	switch name {
@@ -88,7 +93,23 @@ func buildShape(name string, n int, salt int) (enc []byte, decode func(src []byt
 		if salt%4 == 3 && n > 1 {
 			step = wt.Duration((3 << 30) / n) // n x step lies in [2^31, 2^32): beyond the int32 range of Duration
 		}
-		ts := wt.NewTimeSeries(from, wt.Timestamp(uint32(from)+uint32(n)*uint32(step)), step, vals)
+		until := wt.Timestamp(uint32(from) + uint32(n)*uint32(step))
+		if salt%3 == 1 && step > 1 {
+			// a range that is no multiple of the step (floor(range/step) values): until is a field of its own, not derived
+			until = wt.Timestamp(uint32(until) + uint32(step)/2)
+		}
+		ts := wt.NewTimeSeries(from, until, step, vals)
+		lastBuilt = func(obj wt.AppenderTo) string {
+			o, ok := obj.(*wt.TimeSeries)
+			if !ok {
+				return "not a series"
+			}
+			if o.FromTime() != from || o.UntilTime() != until || o.Step() != step || len(o.Values()) != len(vals) {
+				return fmt.Sprintf("decoded series has from=%d until=%d step=%d %d values, the encoded one from=%d until=%d step=%d %d values",
+					o.FromTime(), o.UntilTime(), o.Step(), len(o.Values()), from, until, step, len(vals))
+			}
+			return ""
+		}
 		return ts.AppendTo(nil), func(src []byte) ([]byte, wt.AppenderTo, error) {
 			o := &wt.TimeSeries{}
 			r, err := o.TakeFrom(src)
@@ -249,6 +270,12 @@ func runCodec(args []string) int {
 				if re := obj.AppendTo(nil); !bytes.Equal(re, enc) {
 					bad(fmt.Sprintf("decoded object re-encodes to %x, original %x", re, enc))
 					continue
+				}
+				if lastBuilt != nil {
+					if d := lastBuilt(obj); d != "" {
+						bad("decoding does not yield an equal object: " + d)
+						continue
+					}
 				}
 			case "want":
 				var werr *wt.WantLargerBufferError
